@@ -20,10 +20,129 @@ from __future__ import annotations
 
 from decimal import Decimal
 
+D = Decimal
+
 from .common import frac
 from .props.c05 import E, price_at
 
 KINDS = ("uni", "aave", "squeeth", "deribit", "gmx1", "gmx2")
+
+
+def mix_config(real):
+    from . import sim
+    from .deribit_util import ts_of
+    order = real["order"]
+    return {"s": sim.to_min(ts_of(real["start"])), "iv": real["iv"], "len": real["len"], "nt": 0,
+            "mk": [{"h": ch == "D", "cb": False} for ch in order]}
+
+
+def run_mix(real, tmp):
+    """a minutely market next to the hourly DeribitOptionMarket whose book lists MANY instruments per hour (more book rows than
+    minutes in the window): the run must iterate the minutely index.  Scripted: deposit in initialize, an option order in
+    on_bar of every bar (accepted on the hour, rejected by the closed market in between), deposit / withdraw in after_bar."""
+    import pandas as pd
+
+    from . import nla_drv, sim
+    from .deribit_util import book_frame, ts_of
+    from demeter import Actuator, MarketInfo, MarketTypeEnum, Strategy
+    from demeter.deribit import DeribitOptionMarket
+    start, ln, iv, order, ninstr = real["start"], real["len"], real["iv"], real["order"], real["ninstr"]
+    minutes = list(range(start, start + ln))
+    idx = pd.DatetimeIndex([ts_of(t) for t in minutes])
+    hours = [t for t in range((start // 60) * 60, start + ln + 60, 60) if start <= t < start + ln]   # inside the price frame
+    und = {t: 2000 + 50 * ((t // 60) % 3) for t in hours}
+    frames_ = [book_frame(nla_drv.DERIBIT_BOOKS[(t // 60) % len(nla_drv.DERIBIT_BOOKS)], nla_drv.DERIBIT_INFO,
+                          extra_rows=[(f"X{j:03d}", und[t]) for j in range(ninstr)]) for t in hours]
+    data = pd.concat(frames_, keys=[ts_of(t) for t in hours], names=["time", "instrument_name"])
+    prices = pd.DataFrame(index=idx, data={"ETH": [D(2000 + (t * 7) % 13) for t in minutes]})
+    act = Actuator()
+    eth = DeribitOptionMarket.ETH
+    opt = DeribitOptionMarket(MarketInfo("opt", MarketTypeEnum.deribit_option), eth, data=data)
+    nm = sim.NullMarket(MarketInfo("minutely"), pd.DataFrame(index=idx, data={"v": range(len(idx))}))
+    for ch in order:
+        act.broker.add_market(opt if ch == "D" else nm)
+    act.set_price(prices, sim.USDC)
+    act.broker.set_balance(eth, D(1000))
+    if iv != 1:
+        act.interval = f"{iv}min"
+    markets = list(act.broker.markets.values())
+    jd = markets.index(opt) + 1
+    events = []
+    state = {"started": False}
+    log = events.append
+
+    def acts_from(n0):
+        al = act.actions
+        return [(i + 1, sim.to_min(al[i].timestamp) if al[i].timestamp is not None else -1) for i in range(n0, len(al))]
+
+    def op(fn, write):
+        n0 = len(act.actions)
+        try:
+            fn()
+            ok = True
+        except Exception:
+            ok = False
+        recs = acts_from(n0)
+        if ok:
+            for r in recs:
+                log(E("op", m=jd, k="w" if write else "n", f=True, a=[r]))
+        else:
+            log(E("op", m=jd, k="w" if write else "nx", f=False, a=recs))
+
+    def px_of(p, ts):
+        t = pd.Timestamp(ts)
+        if t not in prices.index:
+            return -3
+        ok = "ETH" in p.index and frac(p["ETH"]) == frac(prices.loc[t]["ETH"]) and all(k == "ETH" or frac(p[k]) == 1 for k in p.index)
+        return price_at(sim.to_min(t)) if ok else -3
+
+    class Rec(Strategy):
+        def initialize(self_):
+            state["started"] = True
+            log(E("init"))
+            op(lambda: opt.deposit(D(10)), False)
+
+        def before_bar(self_, snapshot):
+            log(E("bb", ts=sim.to_min(snapshot.timestamp), n=len(self_.account_status)))
+
+        def on_bar(self_, snapshot):
+            log(E("ob", ts=sim.to_min(snapshot.timestamp), n=len(self_.account_status)))
+            op(lambda: opt.buy("P", D(1)), True)
+
+        def after_bar(self_, snapshot):
+            log(E("ab", ts=sim.to_min(snapshot.timestamp), n=len(self_.account_status)))
+            if snapshot.row_id % 3 == 1:
+                op(lambda: opt.withdraw(D("0.5")), False)
+
+        def notify(self_, action):
+            ident = next((i + 1 for i, a in enumerate(act.actions) if a is action), 0)
+            log(E("ntf", m=ident, ts=sim.to_min(action.timestamp) if action.timestamp is not None else -1, n=len(self_.account_status)))
+
+        def finalize(self_):
+            log(E("fin", n=len(self_.account_status)))
+
+    for j, m in enumerate(markets, 1):
+        _wrap(m, j, log, acts_from, sim)
+    orig_status = act.broker.get_account_status
+
+    def get_account_status(p, timestamp=None):
+        res = orig_status(p, timestamp)
+        if state["started"]:
+            log(E("rec", ts=sim.to_min(timestamp) if timestamp is not None else -1, px=px_of(p, timestamp)))
+        return res
+
+    act.broker.get_account_status = get_account_status
+    act.strategy = Rec()
+    try:
+        act.run(print_result=False)
+        log(E("rowlist", r=[(sim.to_min(s_.timestamp), -1) for s_ in act.account_status]))
+        df = act.account_status_df
+        pcols = [c for c in df.columns if isinstance(c, tuple) and c[0] == "price"]
+        log(E("rows", r=[(sim.to_min(t), px_of(pd.Series({c[1]: df[c].iloc[i] for c in pcols}), t)) for i, t in enumerate(df.index)]))
+        log(E("end", a=acts_from(0)))
+    except Exception as ex:
+        return events, f"{type(ex).__name__}: {ex}"
+    return events, None
 
 
 def config(kind: str, F: int, nbars: int):
@@ -46,6 +165,8 @@ def run_case(real, tmp):
 
     from . import nla_drv, sim
     from demeter import Strategy
+    if real["kind"] == "mix":
+        return run_mix(real, tmp)
     kind, F, script, hist = real["kind"], real["F"], real["script"], tuple(real["hist"])
     nb = len(hist)
     raw = nla_drv.raw_of(hist, F)
@@ -200,4 +321,7 @@ def cases(rnd, quick):
                 for _ in range(nh):
                     nb = rnd.randint(3, 6)
                     out.append({"kind": kind, "F": F, "script": script, "hist": [rnd.randint(1, 3) for _ in range(nb)]})
+    for _ in range(4 if quick else 40):
+        out.append({"kind": "mix", "order": rnd.choice(["MD", "DM"]), "start": rnd.choice([50, 55, 58, 60]), "len": rnd.randint(66, 80),
+                    "iv": rnd.choice([1, 1, 5]), "ninstr": rnd.choice([45, 70])})
     return out
